@@ -3,6 +3,8 @@ package simharness
 import (
 	"context"
 	"errors"
+	"os"
+	"syscall"
 	"fmt"
 	"io"
 	"unsafe"
@@ -169,7 +171,19 @@ type simWriter struct {
 }
 
 func newSimWriter(plan WriterPlan, yield bool) *simWriter {
-	return &simWriter{plan: plan, yield: yield, Err: stubError("writer stub", plan.FailAt+plan.ErrVariant)}
+	err := stubError("writer stub", plan.FailAt+plan.ErrVariant)
+	switch (plan.FailAt + plan.ErrVariant) % 17 {
+	// exact sentinels a writer may legitimately return
+	case 11:
+		err = io.EOF
+	case 12:
+		err = io.ErrClosedPipe
+	case 13:
+		err = syscall.EPIPE
+	case 14:
+		err = os.ErrClosed
+	}
+	return &simWriter{plan: plan, yield: yield, Err: err}
 }
 
 func (w *simWriter) Write(p []byte) (int, error) {
@@ -241,6 +255,7 @@ var noCbFault = CbPlan{FailAt: -1}
 
 type simCallback struct {
 	plan   CbPlan
+	inner  func()              // called by the callback / loop body at the first visit (re-entrant use of the library)
 	ptrs   []*gtree.WalkerNode // every node handed to the callback / loop body, re-read after the walk
 	visits []Visit
 	Fired  bool
@@ -285,6 +300,9 @@ func (cb *simCallback) fn(wn *gtree.WalkerNode) error {
 	idx := len(cb.visits)
 	cb.visits = append(cb.visits, v)
 	cb.ptrs = append(cb.ptrs, wn)
+	if idx == 0 && cb.inner != nil {
+		cb.inner()
+	}
 	if cb.Fired {
 		cb.after++
 	}
@@ -315,3 +333,9 @@ func (cb *simCallback) staleNodes() string {
 type flushWriter struct{ *simWriter }
 
 func (flushWriter) Flush() error { return nil }
+
+// stringWriter is the caller's writer with a WriteString method of its own (io.StringWriter),
+// subject to the same fault plan.
+type stringWriter struct{ *simWriter }
+
+func (w stringWriter) WriteString(s string) (int, error) { return w.simWriter.Write([]byte(s)) }
